@@ -17,7 +17,7 @@ PROPS_MODULE = "NumbersModel.Props.C01"
 THEOREMS = [f"NumbersModel.Props.C01.{t}" for t in (
     "d128_roundtrip", "d128_pack_total", "d128_pack_injective", "cell_roundtrip", "number_cell_roundtrip",
     "row_offsets_fit_int16", "row_roundtrip", "tiles_cover", "tiles_bounded", "tiles_count",
-    "seconds_payload_roundtrip_partial")]
+    "table_roundtrip", "table_saved_shape", "seconds_payload_roundtrip_partial")]
 PARTIAL = {
     "NumbersModel.Props.C01.seconds_payload_roundtrip_partial":
         "date / duration / bool payloads are 8 opaque bytes in the model: the theorem only states that the bytes written "
@@ -27,26 +27,49 @@ PARTIAL = {
 RULE = ("component level: every value of the exhaustive sub-ranges (ints 0..N, 2-decimal prices, k*10^e grid) and seeded "
         "<=15-digit decimals through the real _pack_decimal128/_unpack_decimal128 vs the Lean pack/unpack; generated rows "
         "through the real recalculate_row_info / get_storage_buffers_for_row vs rowInfo/rowBuffers; tile split of real saved "
-        "documents vs tiles; end to end: ~2000 cells per document of every supported type at generated positions (incl. "
+        "documents vs tiles; whole table: the TST.Tile / TileRowInfo / string TableDataList objects read back from files "
+        "written by Document.save vs saveTable on the in-memory grid (every field, every byte), and Table.__init__ on those "
+        "files (and on the same objects after edits in the object store: dropped row-infos / records / strings, larger "
+        "declared size, tile_size 0, pre-BNC tile) vs loadTable; end to end: ~2000 cells per document of every supported type at generated positions (incl. "
         "beyond the initial bounds, >256 rows, >256 columns), saved, reopened, compared exactly; a case is non-trivial if "
         "it is a distinct value / row / (document, cell)")
 MANIFEST = {
-    "text": "Core proved, glue assumed: d128_roundtrip (unpack(pack(sign, coeff, exp)) = (sign, coeff, exp) for EVERY sign, "
-            "every coefficient < 2^113 and every exponent with 0 <= exp + 6176 < 2^14 - the whole decimal128 small-coefficient "
-            "format), d128_pack_injective, number_cell_roundtrip (triple -> payload -> cell record -> payload -> triple with all "
-            "ids carried, composing C04), row_roundtrip (reading a written row returns the "
-            "cell records for any number of columns, holes allowed), row_offsets_fit_int16 (<= MAX_COL_COUNT columns of C04-sized "
-            "records never overflow the int16 offset table), tiles_cover / tiles_bounded / tiles_count (the 256-row tile split "
-            "concatenates back to the table, any number of rows). The cell-record layer is C04's decode_encode. The models are "
-            "tied to _pack_decimal128/_unpack_decimal128/recalculate_row_info/get_storage_buffers_for_row/recalculate_table_data "
-            "by differential correspondence; the whole pipeline (Table.write -> Document.save -> Document(path) -> Cell.value) "
-            "is exercised by an exact-equality oracle on generated documents, which is exploration, not proof.",
+    "text": "Core proved, glue assumed: table_roundtrip - ONE theorem for the whole table write path and read path: for every "
+            "grid with >= 1 row, all rows of one width <= MAX_COL_COUNT, <= MAX_ROW_COUNT rows (any number of 256-row tiles), "
+            "any mix of number / currency / text / date / bool / duration / rich / empty cells with well-sized payloads and "
+            "int32 ids, merged placeholders as holes: loadTable (saveTable grid) returns the grid, cell by cell (class, payload "
+            "bytes, twelve ids, flag words, and for text cells the same string although every string key is re-assigned). "
+            "saveTable mirrors _NumbersModel.recalculate_table_data (string list reset, table_string_key/lookup_key per text "
+            "cell in row-major order, Cell._to_buffer, recalculate_row_info, 256-row tiles with tileid / tile_row_index, "
+            "number_of_rows / number_of_columns / tile_size), loadTable mirrors Table.__init__ (row_storage_map, storage_buffers "
+            "incl. the last_saved_in_BNC test, storage_buffer, get_storage_buffers_for_row, Cell._from_storage, table_string "
+            "through DataLists.add_table, Cell._empty_cell on EMPTY_STORAGE_BUFFER, merged placeholders). The row limit is what "
+            "makes every string key fit the int32 field (MAX_ROW_COUNT * MAX_COL_COUNT <= 2^31 - 1, re-decided against the "
+            "generated constants). Layer theorems it composes: d128_roundtrip (unpack(pack(sign, coeff, exp)) = (sign, coeff, "
+            "exp) for EVERY sign, every coefficient < 2^113 and every exponent with 0 <= exp + 6176 < 2^14 - the whole decimal128 "
+            "small-coefficient format), d128_pack_injective, number_cell_roundtrip (triple -> payload -> cell record -> payload -> "
+            "triple with all ids carried, composing C04), row_roundtrip, row_offsets_fit_int16 (<= MAX_COL_COUNT columns of "
+            "C04-sized records never overflow the int16 offset table), tiles_cover / tiles_bounded / tiles_count, "
+            "table_saved_shape (dimensions and ceil(rows/256) tiles). The models are tied to _pack_decimal128 / "
+            "_unpack_decimal128 / recalculate_row_info / get_storage_buffers_for_row / recalculate_table_data / Table.__init__ "
+            "by differential correspondence: the TST objects read back from files written by Document.save are compared field by "
+            "field and byte by byte with saveTable's output, the grids Document(path) reads with loadTable on those objects. The "
+            "path Table.write -> ... -> Cell.value (value <-> payload through decimal / struct / datetime, grid growth) is "
+            "exercised by an exact-equality oracle on generated documents, which is exploration, not proof.",
     "note": "assumed (exercised, not proved): float(repr-decimal) is the correctly rounded inverse of str(float) for <= 15 (in fact "
             "<= 17) significant digits; decimal.Context(prec=34).create_decimal(str(x)) is exact for such x; struct '<d' is "
             "bijective; timedelta(seconds=float) / total_seconds() invert each other at microsecond resolution within +-100 years "
-            "(and EPOCH + timedelta for the date domain); protobuf / snappy / zip round-trip (C05). Not modelled: string data "
-            "list, row_storage_map, Table.__init__ grid rebuild, _validate_cell_coords growth (reached only by the oracle).",
-    "technique": "Lean 4 proof (bit-level arithmetic, list induction) + differential correspondence + end-to-end oracle",
+            "(and EPOCH + timedelta for the date domain); protobuf / snappy / zip round-trip (C05). In table_roundtrip the "
+            "payload of a number / date / bool / duration cell is the bytes the packers produce (value <-> bytes is "
+            "d128_roundtrip resp. assumed), the reader's is_merge_reference is a parameter required to name exactly the merged "
+            "placeholders (the merge map's own round trip is C12), the two style look-ups at the top of _to_buffer, row / column "
+            "headers and update_cell_styles are outside (C15/C16), rich-text payload look-up (table_rich_text) is outside; "
+            "saveRow encodes a row's cells before laying them out, so for a non-rectangular grid that also holds an unpackable "
+            "id the exception class may differ from Python's (IndexError vs struct.error) - no exception at all under the "
+            "theorem's hypotheses. Not modelled: _validate_cell_coords growth / Cell._from_value dispatch (C03 grid model and the "
+            "end-to-end oracle).",
+    "technique": "Lean 4 proof (bit-level arithmetic, list induction, state invariant of the string list, refinement of the "
+                 "dict-based row map) + differential correspondence on real saved objects + end-to-end oracle",
 }
 ASSUMPTIONS = [
     "float(str) / repr(float) are correctly rounded inverses on <=15-significant-digit decimals (CPython)",
@@ -585,12 +608,422 @@ def check_documents(ctx: Ctx):
     ctx.correspond("tile split at the 256-row boundaries", req_t, out_t, exhaustive=True)
 
 
+# ----------------------------------------------------------------------------------------------
+# (v) the whole table: recalculate_table_data / Table.__init__ vs saveTable / loadTable
+# ----------------------------------------------------------------------------------------------
+ID_ATTRS = ("_rich_id", "_cell_style_id", "_text_style_id", "_formula_id", "_control_id", "_suggest_id",
+            "_num_format_id", "_currency_format_id", "_date_format_id", "_duration_format_id", "_text_format_id",
+            "_bool_format_id")
+
+
+def opti(v):
+    return "n" if v is None else str(int(v))
+
+
+def ids_token(cell) -> str:
+    return ";".join(opti(getattr(cell, a, None)) for a in ID_ATTRS)
+
+
+def tcell_token(cell) -> str:
+    """an in-memory cell as the model's `TCell`: class, the payload the third-party packers produce (`_pack_decimal128`
+    — tied to Model/Decimal128 in (i) — and struct '<d', computed here exactly as `_to_buffer` computes them), the string
+    of a text cell, `_string_id`, and the twelve ids as they are once `_to_buffer` has done its style look-ups."""
+    from numbers_parser import cell as C
+    from numbers_parser.constants import EPOCH
+    payload, text = b"", ""
+    if isinstance(cell, C.NumberCell):
+        kind = "currency" if cell._type == C.CellType.CURRENCY else "number"
+        payload = bytes(C._pack_decimal128(cell.value))
+    elif isinstance(cell, C.TextCell):
+        kind, text = "text", cell.value
+    elif isinstance(cell, C.DateCell):
+        kind = "date"
+        delta = cell._value - (EPOCH if cell._value.tzinfo is None else EPOCH.astimezone(cell._value.tzinfo))
+        payload = struct.pack("<d", float(delta.total_seconds()))
+    elif isinstance(cell, C.BoolCell):
+        kind, payload = "bool", struct.pack("<d", float(cell.value))
+    elif isinstance(cell, C.DurationCell):
+        kind, payload = "duration", struct.pack("<d", float(cell.value.total_seconds()))
+    elif isinstance(cell, C.EmptyCell):
+        kind = "empty"
+    elif isinstance(cell, C.MergedCell):
+        kind = "merged"
+    elif isinstance(cell, C.RichTextCell):
+        kind = "rich"
+    else:
+        kind = "other"
+    return "/".join((kind, enc_bytes(payload), common.enc_text(text), opti(getattr(cell, "_string_id", None)), ids_token(cell)))
+
+
+def saved_objects(model, table_id):
+    """the TST objects of one table, read out of a model (the document reopened from the saved file)."""
+    tm = model.objects[table_id]
+    bds = tm.base_data_store
+    dl = model.objects[bds.stringTable.identifier]
+    tiles = []
+    for tref in bds.tiles.tiles:
+        tile = model.objects[tref.tile.identifier]
+        tiles.append((tref.tileid, tile.numrows, bool(tile.last_saved_in_BNC),
+                      [(r.tile_row_index, r.cell_count, bytes(r.cell_offsets), bytes(r.cell_storage_buffer), bool(r.has_wide_offsets))
+                       for r in tile.rowInfos]))
+    return {"rows": tm.number_of_rows, "cols": tm.number_of_columns, "tile_size": bds.tiles.tile_size,
+            "wide_rows": bool(bds.tiles.should_use_wide_rows), "next_list_id": dl.nextListID,
+            "strings": [(e.key, e.refcount, e.string) for e in dl.entries], "tiles": tiles}
+
+
+def save_request(table, wide_before: bool) -> str:
+    """`table save` for the in-memory grid of a table (taken after the save: style ids are assigned by `_to_buffer`);
+    `wide_before` is `should_use_wide_rows` before the save (the save only ever sets it)."""
+    req = ["table", "save", str(int(wide_before)), str(len(table._data))]
+    for row in table._data:
+        req.append(str(len(row)))
+        req += [tcell_token(c) for c in row]
+    return " ".join(req)
+
+
+def wide_rows_flag(model, table_id) -> bool:
+    return bool(model.objects[table_id].base_data_store.tiles.should_use_wide_rows)
+
+
+def saved_line(o) -> str:
+    """canonical one-line form of the saved objects = the reply format of `table save`."""
+    w = [str(o["rows"]), str(o["cols"]), str(o["tile_size"]), str(int(o["wide_rows"])), str(o["next_list_id"]),
+         "S", str(len(o["strings"]))]
+    w += [f"{k}:{rc}:{common.enc_text(s)}" for k, rc, s in o["strings"]]
+    w += ["T", str(len(o["tiles"]))]
+    for tid, numrows, bnc, rows in o["tiles"]:
+        w.append(f"{tid}:{numrows}:{int(bnc)}:{len(rows)}")
+        w += [f"{i}:{n}:{enc_bytes(off)}:{enc_bytes(st)}" for i, n, off, st, _ in rows]
+    return "ok " + " ".join(w)
+
+
+def load_request(o, merge_refs) -> str:
+    w = ["table", "load", str(o["rows"]), str(o["cols"]), str(o["tile_size"]), "M", str(len(merge_refs))]
+    w += [f"{r}:{c}" for r, c in merge_refs]
+    w += ["S", str(len(o["strings"]))] + [f"{k}:{rc}:{common.enc_text(s)}" for k, rc, s in o["strings"]]
+    w += ["T", str(len(o["tiles"]))]
+    for tid, _numrows, bnc, rows in o["tiles"]:
+        w.append(f"{tid}:{int(bnc)}:{len(rows)}")
+        w += [f"{i}:{int(wide)}:{enc_bytes(off)}:{enc_bytes(st)}" for i, _n, off, st, wide in rows]
+    return " ".join(w)
+
+
+def optf(x):
+    return "n" if x is None else repr(float(x))
+
+
+LKIND = {"EmptyCell": "empty", "TextCell": "text", "DateCell": "date", "BoolCell": "bool", "DurationCell": "duration",
+         "ErrorCell": "error", "RichTextCell": "rich", "BulletedTextCell": "rich"}
+
+
+def lcell_impl(cell) -> str:
+    """what `Table.__init__` left in `_data[row][col]` (class, interpreted payloads, `_string_id`, ids, `_extras`, `_flags`, text)."""
+    from numbers_parser import cell as C
+    if isinstance(cell, C.MergedCell):
+        return "M"
+    if isinstance(cell, C.NumberCell):
+        kind = "currency" if cell._type == C.CellType.CURRENCY else "number"
+    else:
+        kind = LKIND.get(type(cell).__name__, type(cell).__name__)
+    text = common.enc_text(cell.value) if isinstance(cell, C.TextCell) else "n"
+    return "/".join((kind, optf(cell._d128), optf(cell._double), optf(cell._seconds), opti(cell._string_id), ids_token(cell),
+                     str(cell._extras), str(cell._flags), text))
+
+
+def lcell_model(tok: str) -> str:
+    """the model's loaded cell with its raw payload bytes passed through the third-party steps the reader applies
+    (`_unpack_decimal128` — tied to Model/Decimal128 in (i) — and struct '<d')."""
+    from numbers_parser import cell as C
+    if tok == "M":
+        return tok
+    f = tok.split("/")
+    if len(f) != 9:
+        return tok
+    if f[1] != "n":
+        f[1] = repr(float(C._unpack_decimal128(bytearray(bytes.fromhex(f[1])))))
+    for i in (2, 3):
+        if f[i] != "n":
+            f[i] = repr(struct.unpack("<d", bytes.fromhex(f[i]))[0])
+    return "/".join(f)
+
+
+def grid_line_impl(table) -> str:
+    w = [str(len(table._data))]
+    for row in table._data:
+        w.append(str(len(row)))
+        w += [lcell_impl(c) for c in row]
+    return "ok " + " ".join(w)
+
+
+def grid_line_model(reply: str) -> str:
+    if not reply.startswith("ok "):
+        return reply
+    w = reply[3:].split(" ")
+    out, i = [w[0]], 1
+    try:
+        for _ in range(int(w[0])):
+            n = int(w[i])
+            out.append(w[i])
+            out += [lcell_model(t) for t in w[i + 1:i + 1 + n]]
+            i += 1 + n
+    except (ValueError, IndexError):
+        return reply
+    return "ok " + " ".join(out)
+
+
+def first_diff(a: str, b: str) -> str:
+    wa, wb = a.split(" "), b.split(" ")
+    for i, (x, y) in enumerate(zip(wa, wb)):
+        if x != y:
+            return f"word {i}: impl {x[:160]!r} vs model {y[:160]!r}"
+    return f"lengths {len(wa)} vs {len(wb)} words"
+
+
+def correspond_long(ctx: Ctx, name: str, requests, impl_out, fmap=None, describe=None):
+    """`ctx.correspond` for very long lines: evidence keeps a description and digests, a disagreement keeps the first
+    differing word; the model's reply may be mapped through assumed third-party steps (`fmap`)."""
+    import hashlib
+    sub = ctx.subspaces.setdefault(name, {"cases": 0, "exhaustive": False, "disagreements": 0})
+    sub["cases"] += len(requests)
+    ctx.evaluations += len(requests)
+    for k, (r, o) in enumerate(zip(requests, impl_out)):
+        ctx.histogram[name + ":" + o.split(" ", 1)[0]] += 1
+        if k < 2:
+            ctx.samples.append({"subspace": name, "request": (describe[k] if describe else r[:160]),
+                                "impl": o[:200] + (f"... ({len(o)} chars, blake2b {hashlib.blake2b(o.encode(), digest_size=8).hexdigest()})" if len(o) > 200 else "")})
+    if not ctx.model_available:
+        sub["skipped_model"] = True
+        return
+    model_out = common.run_model(requests)
+    for k, (r, a, b) in enumerate(zip(requests, impl_out, model_out)):
+        b2 = fmap(b) if fmap else b
+        if a != b2:
+            sub["disagreements"] += 1
+            if len(ctx.disagreements) < 50:
+                ctx.disagreements.append({"subspace": name, "request": (describe[k] if describe else "") + " " + r[:300],
+                                          "impl": a[:300], "model": b[:300], "first_difference": first_diff(a, b2)})
+
+
+def pipeline_docs(ctx: Ctx):
+    """(description, rows, cols, header rows/cols, writes, merges, styled, formatted)"""
+    rng = ctx.rng
+    docs = []
+
+    def fill(nr, nc, density, kinds, dup=0.3, empty_rows=()):
+        pool = [gen_value(rng, "str") for _ in range(5)]
+        out = []
+        for r in range(nr):
+            if r in empty_rows:
+                continue
+            for c in range(nc):
+                if rng.random() < density:
+                    k = rng.choice(kinds)
+                    v = rng.choice(pool) if k == "str" and rng.random() < dup else gen_value(rng, k)
+                    if isinstance(v, str) and len(v) > 300:
+                        v = v[:300]
+                    out.append((r, c, v))
+        return out
+
+    docs.append(("1x1 text", 1, 1, fill(1, 1, 1.0, ("str",)), [], False))
+    docs.append(("1x1 number", 1, 1, [(0, 0, 12)], [], False))
+    for nr, nc in ((255, 2), (256, 2), (257, 3), (513, 2)):
+        docs.append((f"{nr}x{nc} mixed, text duplicates, empty rows", nr, nc,
+                     fill(nr, nc, 0.8, KINDS, empty_rows={1, 2, nr // 2, nr - 2}), [], False))
+    docs.append(("3x256 wide", 3, 256, fill(3, 256, 0.7, KINDS), [], False))
+    docs.append(("2x257 wide (> 256 columns)", 2, 257, fill(2, 257, 0.7, KINDS), [], False))
+    docs.append(("12x8 merges + styles + formats", 12, 8, fill(12, 8, 0.9, KINDS), ["B2:C3", "E1:E4", "G6:H6"], True))
+    docs.append(("300x4 only the last row written", 300, 4, [(299, 3, "end"), (299, 0, "end")], [], False))
+    docs.append(("20x5 all text, heavy duplication", 20, 5, fill(20, 5, 1.0, ("str",), dup=0.9), ["A2:A3"], False))
+    for _ in range(3 if ctx.quick else 12):
+        nr, nc = rng.randint(1, 300), rng.randint(1, 20)
+        merges = []
+        if nr >= 4 and nc >= 3 and rng.random() < 0.7:
+            r0, c0 = rng.randrange(nr - 2), rng.randrange(nc - 1)
+            merges.append(f"{chr(65 + c0)}{r0 + 1}:{chr(65 + c0 + 1)}{r0 + 2}")
+        docs.append((f"{nr}x{nc} seeded", nr, nc, fill(nr, nc, rng.choice((0.2, 0.6, 1.0)), KINDS,
+                                                        empty_rows={rng.randrange(nr)}), merges, rng.random() < 0.5))
+    if not ctx.quick:
+        docs.append(("1025x3", 1025, 3, fill(1025, 3, 0.8, KINDS), [], False))
+        docs.append(("5x1000", 5, 1000, fill(5, 1000, 0.6, KINDS), [], False))
+        docs.append(("513x257", 513, 257, fill(513, 257, 0.3, KINDS), ["B2:C3"], False))
+    return docs
+
+
+PERTURBATIONS = ("drop-row-info", "more-rows-and-columns", "fewer-columns", "blank-record", "pre-bnc-tile", "drop-string",
+                 "tile-size-0", "reverse-row-infos")
+
+
+def perturbed_loads(ctx: Ctx, path: str, desc: str, req, out, dsc):
+    """read-path arms the API-built files never reach (rows without a row-info, positions beyond the stored columns →
+    `Cell._empty_cell`; a string key without an entry → ''; `tile_size` 0; a tile not `last_saved_in_BNC`): load the saved
+    file into a fresh model, edit the TST objects in the object store, run the real `Table.__init__`, and give the very
+    same objects to the model's `loadTable`."""
+    from array import array
+    from pathlib import Path
+
+    from numbers_parser.document import Table
+    from numbers_parser.model import _NumbersModel
+    rng = ctx.rng
+    for kind in PERTURBATIONS:
+        with warnings.catch_warnings():
+            warnings.simplefilter("ignore")
+            m = _NumbersModel(Path(path))
+            tid = m.table_ids()[0]
+            tm = m.objects[tid]
+            bds = tm.base_data_store
+            tiles = [m.objects[t.tile.identifier] for t in bds.tiles.tiles]
+            dl = m.objects[bds.stringTable.identifier]
+            if kind == "drop-row-info":
+                tile = rng.choice(tiles)
+                if len(tile.rowInfos) == 0:
+                    continue
+                del tile.rowInfos[rng.randrange(len(tile.rowInfos))]
+            elif kind == "more-rows-and-columns":
+                tm.number_of_rows += 2
+                tm.number_of_columns += 2
+            elif kind == "fewer-columns":
+                if tm.number_of_columns < 2:
+                    continue
+                tm.number_of_columns -= 1
+            elif kind == "blank-record":
+                cands = [(r, i) for t in tiles for r in t.rowInfos for i, o in enumerate(array("h", r.cell_offsets)) if o >= 0]
+                if not cands:
+                    continue
+                r, i = rng.choice(cands)
+                offs = array("h", r.cell_offsets)
+                offs[i] = -1
+                r.cell_offsets = offs.tobytes()
+            elif kind == "pre-bnc-tile":
+                tiles[-1].last_saved_in_BNC = False
+            elif kind == "drop-string":
+                if len(dl.entries) == 0:
+                    continue
+                del dl.entries[rng.randrange(len(dl.entries))]
+            elif kind == "tile-size-0":
+                bds.tiles.tile_size = 0
+            elif kind == "reverse-row-infos":
+                tile = tiles[0]
+                infos = [type(r).FromString(r.SerializeToString()) for r in tile.rowInfos]
+                del tile.rowInfos[:]
+                tile.rowInfos.extend(reversed(infos))
+            objs = saved_objects(m, tid)
+            mc = m.merge_cells(tid)
+            refs = sorted(rc for rc in mc._references if mc.is_merge_reference(rc))
+            req.append(load_request(objs, refs))
+            dsc.append(f"table load <{desc}: saved TST objects after '{kind}'>")
+            try:
+                out.append(grid_line_impl(Table(m, tid)))
+            except Exception as e:  # noqa: BLE001
+                out.append("err " + exc_name(e))
+            ctx.mark(("pipeline-perturbed", desc, kind))
+
+
+def build_pipeline_doc(spec):
+    """the document a pipeline spec describes (deterministic: used by the run and by `replay`)."""
+    import numbers_parser
+    nr, nc = spec["rows"], spec["cols"]
+    doc = numbers_parser.Document(num_rows=nr, num_cols=nc, num_header_rows=min(1, nr - 1) if nr > 1 else 0,
+                                  num_header_cols=min(1, nc - 1) if nc > 1 else 0)
+    table = doc.sheets[0].tables[0]
+    style = doc.add_style(name="c01 pipeline", bold=True, bg_color=numbers_parser.RGB(10, 20, 30)) if spec["styled"] else None
+    for r, c, jv, styled, places in spec["writes"]:
+        v = unj(jv)
+        if styled:
+            table.write(r, c, v, style=style)
+        else:
+            table.write(r, c, v)
+        if places is not None:
+            table.set_cell_formatting(r, c, "number", decimal_places=places)
+    for m in spec["merges"]:
+        table.merge_cells(m)
+    return doc, table
+
+
+def check_pipeline(ctx: Ctx):
+    import numbers_parser
+    rng = ctx.rng
+    req_s, out_s, dsc_s, req_l, out_l, dsc_l, req_p, out_p, dsc_p = [], [], [], [], [], [], [], [], []
+    for desc, nr, nc, writes, merges, styled in pipeline_docs(ctx):
+        with warnings.catch_warnings():
+            warnings.simplefilter("ignore")
+            spec = {"pipeline": True, "desc": desc, "rows": nr, "cols": nc, "merges": merges, "styled": styled, "writes": []}
+            written = {}
+            for r, c, v in writes:
+                if isinstance(v, str) and len(v) > 64:
+                    v = v[:64]
+                num = isinstance(v, (int, float)) and not isinstance(v, bool)
+                spec["writes"].append([r, c, jvalue(v), bool(styled and rng.random() < 0.2),
+                                       rng.randint(0, 4) if styled and num and rng.random() < 0.3 else None])
+                written[(r, c)] = v
+            inp = spec
+            doc, table = build_pipeline_doc(spec)
+            d = tempfile.mkdtemp(prefix="c01p-")
+            wide_before = wide_rows_flag(doc._model, table._table_id)
+            try:
+                try:
+                    path = os.path.join(d, "t.numbers")
+                    doc.save(path)                      # -> recalculate_table_data for every table
+                    doc2 = numbers_parser.Document(path)
+                    t2 = doc2.sheets[0].tables[0]       # -> Table.__init__
+                except Exception as e:  # noqa: BLE001
+                    ctx.violation("save-reopen-raises", f"save/reopen of '{desc}' raised {exc_name(e)}: {e}", inp)
+                    continue
+                if nr * nc <= 2000:
+                    perturbed_loads(ctx, path, desc, req_p, out_p, dsc_p)
+            finally:
+                shutil.rmtree(d, ignore_errors=True)
+            # the model's input: the in-memory grid as it is after the save (style ids assigned by `_to_buffer`)
+            req = save_request(table, wide_before)
+            objs = saved_objects(doc2._model, t2._table_id)      # read back from the file with the library's IWA reader
+            req_s.append(req)
+            out_s.append(saved_line(objs))
+            dsc_s.append(f"table save <{desc}: in-memory grid of {nr}x{nc} cells after Document.save>")
+            mc = doc2._model.merge_cells(t2._table_id)
+            refs = sorted(rc for rc in mc._references if mc.is_merge_reference(rc))
+            req_l.append(load_request(objs, refs))
+            out_l.append(grid_line_impl(t2))
+            dsc_l.append(f"table load <{desc}: TST objects of the saved file, {len(refs)} merge references>")
+            ctx.mark(("pipeline", desc, nr, nc, len(writes)))
+            # the property itself on this document (independent of the model)
+            if (t2.num_rows, t2.num_cols) != (nr, nc):
+                ctx.violation("reopened-table-shape", f"'{desc}': reopened table is {t2.num_rows}x{t2.num_cols}, expected {nr}x{nc}", inp)
+                continue
+            merged_refs = set(refs)
+            n = 0
+            for (r, c), v in written.items():
+                if (r, c) in merged_refs:
+                    continue
+                n += 1
+                why = same_value(v, t2.cell(r, c))
+                if why:
+                    ctx.violation(f"{jvalue(v)['type']}-not-read-back-exactly",
+                                  f"'{desc}': wrote {v!r:.120} at ({r},{c}); after save/reopen: {why}",
+                                  {"row": r, "col": c, "expected": jvalue(v), "pipeline_spec": spec})
+            for r in range(nr):
+                for c in range(nc):
+                    if (r, c) in written:
+                        continue
+                    cls = type(t2.cell(r, c)).__name__
+                    want = "MergedCell" if (r, c) in merged_refs else "EmptyCell"
+                    if cls != want:
+                        ctx.violation("unwritten-cell-not-empty", f"'{desc}': cell({r},{c}) never written, reopened as {cls}, expected {want}",
+                                      {"row": r, "col": c, "expected": None, "pipeline_spec": spec})
+            ctx.count("whole table: cells of API-built documents saved, reopened, compared exactly", n)
+    correspond_long(ctx, "recalculate_table_data (via Document.save; objects read back from the saved file) vs saveTable",
+                    req_s, out_s, describe=dsc_s)
+    correspond_long(ctx, "Table.__init__ on the saved file vs loadTable on the same TST objects",
+                    req_l, out_l, fmap=grid_line_model, describe=dsc_l)
+    correspond_long(ctx, "Table.__init__ vs loadTable on saved objects edited in the store (missing row-infos / records / "
+                         "strings, larger declared size, tile_size 0, pre-BNC tile)", req_p, out_p, fmap=grid_line_model, describe=dsc_p)
+
+
 def run(ctx: Ctx):
     seen, orig = limited_violations(ctx)
     try:
         check_decimal128(ctx)
         check_rows(ctx)
         check_documents(ctx)
+        check_pipeline(ctx)
     finally:
         ctx.violation = orig
         ctx.extra["oracle_failures_by_signature"] = dict(seen)
@@ -601,6 +1034,23 @@ def replay(data):
     from numbers_parser import cell as C
     inp = data.get("input", {})
     res = {}
+    spec = inp.get("pipeline_spec") or (inp if inp.get("pipeline") else None)
+    if spec:                                                       # a whole API-built document of check_pipeline
+        with warnings.catch_warnings():
+            warnings.simplefilter("ignore")
+            doc, _ = build_pipeline_doc(spec)
+            try:
+                t2 = save_reopen(doc).sheets[0].tables[0]
+            except Exception as e:  # noqa: BLE001
+                return {"document": spec["desc"], "save_reopen_raises": exc_name(e) + ": " + str(e)[:200]}
+            res = {"document": spec["desc"], "reopened_shape": [t2.num_rows, t2.num_cols]}
+            if "row" in inp:
+                cell = t2.cell(inp["row"], inp["col"])
+                res.update({"cell": [inp["row"], inp["col"]], "read_class": type(cell).__name__, "read_value": repr(cell.value)[:200],
+                            "expected": inp.get("expected")})
+                if inp.get("expected") is not None:
+                    res["equal"] = same_value(unj(inp["expected"]), cell) is None
+        return res
     if "value" in inp and isinstance(inp["value"], str):          # component-level number
         v = int(inp["value"]) if inp.get("type") == "int" else float(inp["value"])
         b = bytes(C._pack_decimal128(v))
